@@ -112,7 +112,7 @@ def oracle(case, lines):
             if k in ("DESTROY", "XYR") and pconn not in ("-", None) and prev and prev.pend > 0 and \
                     (pk and pk[2].endswith(":0") or kq_since_run > 0) and not destroyed and not dying:
                 sig(KEY_N2, i)
-            if k == "XYR" and not destroyed and not dying:
+            if k in ("XYR", "EVWY") and not destroyed and not dying:
                 sig(KEY_F13, i)
         if ln.startswith("crashed"):
             fail(i, "crash", "op %d (%s): %s" % (i, op, ln))
@@ -512,7 +512,7 @@ def run(chk, replay=None):
     chk.cov["distinct_nontrivial"] = len(sigs_seen)
     chk.cov["rule"] = ("corpus (witnesses of the findings) + scripted-server scenarios (up / down for k attempts up to and beyond the cap / "
                        "up later / closes at once; every errno of connect and SO_ERROR; stop, disconnect, destroy, foreign halves at every "
-                       "point of progress) + ALL transitions from every state reachable within depth-1 ops over a 26-op alphabet "
+                       "point of progress) + ALL transitions from every state reachable within depth-1 ops over a 27-op alphabet "
                        "(breadth-first over the extracted model, states identified up to a clock shift, restricted to what the property "
                        "text allows) + random longer histories in 6 profiles; non-trivial = at least one connect attempt; distinct by the "
                        "sequence of (op kind, kinds of events produced, timer armed)")
